@@ -27,6 +27,12 @@ def make_cases(tier, rng):
         # all boundary sizes in a row on both streams
         cases.append({"name": "io%d" % len(cases), "proto": proto, "pre": [], "attach_delay_ms": 0, "with_rpc": False,
                       "script": [{"stream": st, "n": s, "seed": 2000 + k * 2 + j, "gap_ms": 0} for k, s in enumerate(SIZES) for j, st in enumerate(["out", "err"])]})
+    # output that comes later than the client's StartTimeout after the host attached
+    for proto in PROTOS:
+        for _ in range(1 if tier == "quick" else 4):
+            late = [{"stream": "out", "n": 300, "seed": 3000, "gap_ms": 0}, {"stream": "err", "n": 200, "seed": 3001, "gap_ms": 0},
+                    {"stream": "out", "n": rng.choice([100, 2048]), "seed": 3002, "gap_ms": 1700}, {"stream": "err", "n": 1500, "seed": 3003, "gap_ms": 1700}]
+            cases.append({"name": "io%d" % len(cases), "proto": proto, "pre": [], "attach_delay_ms": 0, "with_rpc": False, "script": late, "start_timeout_ms": 1000})
     return cases
 
 
